@@ -37,11 +37,11 @@ H3_NOTE = "Trusted: Go toolchain and testing/synctest; the instrumenter and sim 
 H3_TECH = "deterministic simulation: seeded scheduler over the real db19 pipeline + per-state refinement check against a reference model"
 
 def h3(text):
-    return ("exploration", text + " Seeded search (policies: random, PCT, run-to-block, starvation; time advance as a fault) over interleavings of client tasks, checker, merger, merge/persist workers and tickers of the real db19 pipeline, with every published database state compared with an executable reference model. A clean batch is evidence, not proof.", H3_NOTE, H3_TECH, "6 (H3), 7")
+    return ("exploration", text + " Seeded search (policies: random, PCT on all yields or on lock operations, run-to-block, starvation; time advance and client stalls inside operations as faults) over interleavings of client tasks, checker, merger, merge/persist workers and tickers of the real db19 pipeline, with every published database state compared with an executable reference model. A clean batch is evidence, not proof.", H3_NOTE, H3_TECH, "6 (H3), 7")
 
 CLAIMED = {
  "C01": h3("Oracle: every committed update transaction's recorded lookups and scans are re-evaluated on the model state just before its commit point (plus its own earlier writes) and must equal what it saw; no row it wrote may have changed between its snapshot and its commit."),
- "C02": h3("Oracle: every read of a long-lived read transaction equals the model state at the version it was opened at, repeated reads are identical, and every read of an update transaction equals its start snapshot plus its own writes."),
+ "C02": h3("Oracle: every read of a long-lived read transaction equals the model state at the version it was opened at, repeated reads are identical, and every read of an update transaction equals its start snapshot plus its own writes; scratch tables are created and dropped meanwhile (a snapshot must not lose a table)."),
  "C03": h3("Oracle: each published state that differs logically from its predecessor must be the predecessor plus the complete write set of exactly one transaction whose Complete is in flight; Complete reports success iff its writes were published; aborted / failed / timed-out transactions are never published; reported row counts and sizes equal the actual rows and bytes of every state."),
  "C06": h3("Oracle: in every published state every index (including ones created by alter create / ensure while writers run) holds exactly the primary index's rows, each under the key computed from the row, in strictly increasing order; db.Check(full) during and at the end of the run returns nil."),
  "C07": h3("Oracle: no published state has two rows with the same key tuple, the same non-empty unique value, or more than one row in a key() table; an insert or update that collides with the transaction's own snapshot plus writes must raise, and one that does not must not."),
@@ -62,16 +62,16 @@ def h4(level, text, tech):
 CLAIMED.update({
  "C04": h4("exploration", "Histories of admin requests, transactions, explicit and ticker persists, think times and clean restarts; before every clean close a full snapshot (schema text, columns, indexes with primary/contains-key flags, foreign key links in both directions, views, info entries, every index's keys and offsets, rows, counts) is taken and must equal the snapshot after reopen; rows must equal the model maintained from accepted operations.", "differential snapshot before close / after reopen + row model"),
  "C05": h4("fault_enumeration", "1-3 crash images taken at tape-chosen scheduler steps plus the cleanly closed file; each truncated at structural offsets +-1, bytes inside the last state records and shutdown markers and tape-chosen offsets, with absent / zero / garbage tails (<=150 damaged files per run). Open must return an error (or open a clean earlier file to that close's contents; a file without header may be refused by a fatal exit), check and repair must return; if a complete state record lies below the truncation point repair must succeed, the database must open, pass the full check and hold the contents of an admissible history prefix of the newest such record; otherwise repair must fail.", "crash-image truncation enumeration with open / check / repair / reopen oracle"),
- "C19": h4("exploration", "Every persisted state is recorded when it is published (offset, publication time, admissible range of history prefixes: at least what an explicit Persist/Close had to save, at most what had been started). Stepping with Asof(-1) from the current state must visit exactly these states in reverse order with non-decreasing times not after their publication, each showing the model after an admissible prefix; Asof(t) for tape-chosen times must land on max{i: t_i <= t} or the first state; live and after reopen.", "persisted-state history vs asof stepping and lookup"),
- "C20": h4("exploration", "At the end of each history: DumpDatabase + LoadDatabase, Compact of a copy, DumpTable + LoadTable; each result must open, pass the full check and have the same tables, live columns, derived columns, indexes, foreign keys, views and rows as the original; worker pools of the tools run under the scheduler with 1-4 workers.", "logical comparison of the database before / after the tools"),
- "C21": h4("exploration", "After every admin request (valid or invalid, incl. foreign keys to the same table and must-fail requests): refused => physical snapshot unchanged (incl. index flags); succeeded => must-fail rules respected, every table has a key, index columns exist, Fk/FkToHere mutually consistent with correct index numbers, schema and info tables agree, nrows/size match, rows through every index equal the model, schema text re-parses; the links recomputed by linkFkeys after restart must equal the incrementally maintained ones.", "schema invariants + refused-means-unchanged + restart differential"),
+ "C19": h4("exploration", "Every persisted state is recorded when it is published (offset, publication time, admissible range of history prefixes: at least what an explicit Persist/Close had to save, at most what had been started). Stepping with Asof(-1) from the current state must visit exactly these states in reverse order with non-decreasing times not after their publication, each showing the model after an admissible prefix, and stepping forwards with Asof(1) must visit them again in order; Asof(t) for tape-chosen times must land on max{i: t_i <= t} or the first state; the answers a concurrent reader got for Asof(a moment ago) while persists were in progress must still be right at the end; live and after reopen; files span several 128 KB chunks.", "persisted-state history vs asof stepping and lookup"),
+ "C20": h4("exploration", "At the end of each history: DumpDatabase + LoadDatabase, Compact of a copy, DumpTable + LoadTable; each result must open, pass the full check and have the same tables, live columns, derived columns, indexes, foreign keys, views and rows as the original; a dump edited so that an index over columns with equal values in two rows is declared a key or unique index must be refused by LoadDatabase and LoadTable; worker pools of the tools run under the scheduler with 1-8 workers.", "logical comparison of the database before / after the tools"),
+ "C21": h4("exploration", "After every admin request (valid or invalid, incl. foreign keys to the same table and must-fail requests): refused => physical snapshot unchanged (incl. index flags); succeeded => must-fail rules respected, every table has a key, index columns exist, Fk/FkToHere mutually consistent with correct index numbers, schema and info tables agree, nrows/size match, rows through every index equal the model, schema text re-parses; a transaction started before the request must afterwards still see exactly what it saw (published states never change); the links recomputed by linkFkeys after restart must equal the incrementally maintained ones.", "schema invariants + refused-means-unchanged + restart differential"),
 })
 
 H6_NOTE = "Trusted: Go toolchain, testing/synctest and crypto/tls; the instrumenter and sim libraries; the simulated transport (fragmentation, short reads, delays; no resets, duplication or reordering); the client half of the hello/TLS upgrade is a copy of ConnectClient's code after dialing; sampling, not enumeration."
 CLAIMED.update({
- "C40": ("exploration", "Differential simulation: 1-4 sessions on one simulated connection run generated programs (transactions, queries, gets, outputs up to 900 KB, updates, erases, query statements, get-one, admin requests) through the real client, TLS, mux, workers and server command handlers while the same programs run directly on a DbmsLocal of an identical twin database; every operation's logical result or error must be equal, each session must receive exactly its own responses, and both databases must have equal contents at the end. The tape decides message fragmentation, short reads, delivery delays and every interleaving of sessions, mux reader, workers and both database pipelines. A clean batch is evidence, not proof.", H6_NOTE, "deterministic simulation: real client and server over a simulated transport, differential against direct local access", "6 (H6), 7 (C40)"),
- "C41": ("exploration", "A database with users; one connection authenticates properly and keeps working; 1-3 unauthenticated connections send generated sequences over every typed request and raw transaction / query / cursor commands, plus authentication attempts (wrong password, right password over own fresh / used nonce, over another connection's nonce, made up token, tokens of the authenticated party) with think times that let nonces and tokens expire. Oracle: every request outside {Auth, Nonce, SessionId, LibGet, Libraries, EndSession} is refused, Auth succeeds only with the right hash over the connection's own unused fresh nonce (or a token handed to an authenticated party), the database contents do not change and the authenticated session keeps working. A clean batch is evidence, not proof.", H6_NOTE, "deterministic simulation: generated protocol sessions on unauthorized connections against the real server", "6 (H6), 7 (C41)"),
- "C43": ("exploration", "LIMITED claim: with a scheduling point before every statement of core/suobject.go and every lock operation, 2-4 threads perform single-call operations on one shared SuObject; oracles: no Go run-time error, and the recorded history (incl. the final contents) is linearizable (porcupine) against the same code run single-threaded. This decides the crash / torn-result part of the property at sequentially consistent granularity; it cannot observe data races in the Go memory model sense (tasks are serialised by the simulator), which need the race detector on real parallel executions - outside this technique. Records, closures and classes are not covered.", "Trusted: Go toolchain and testing/synctest; instrumenter (statement yields) and simsync; porcupine v1.3.0; sequential SuObject semantics as the specification.", "deterministic simulation: statement-level interleaving of shared-object methods + porcupine linearizability check", "6 (H7), 7 (C43)"),
+ "C40": ("exploration", "Differential simulation: 1-4 sessions on one simulated connection run generated programs (transactions, queries incl. project / remove over tables with a large middle column, gets, cursors, outputs up to 900 KB, updates, erases, query statements, get-one, read / write counts, admin requests, requests abandoned half built) through the real client, TLS, mux, workers and server command handlers while the same programs run directly on a DbmsLocal of an identical twin database; every operation's logical result or error must be equal, each session must receive exactly its own responses, and both databases must have equal contents at the end. The tape decides message fragmentation, short reads, delivery delays and every interleaving of sessions, mux reader, workers and both database pipelines. A clean batch is evidence, not proof.", H6_NOTE, "deterministic simulation: real client and server over a simulated transport, differential against direct local access", "6 (H6), 7 (C40)"),
+ "C41": ("exploration", "A database with users; one connection authenticates properly and keeps working; 1-3 unauthenticated connections send generated sequences over every typed request and raw transaction / query / cursor commands, plus authentication attempts (wrong password, right password over own fresh / used nonce, over another connection's nonce, made up token, tokens of the authenticated party, an unknown user with an empty password hash) with think times that let nonces and tokens expire; half of the unauthenticated connections carry a second concurrent session that keeps sending must-be-refused requests while the first authenticates. Oracle: every request outside {Auth, Nonce, SessionId, LibGet, Libraries, EndSession} is refused, Auth succeeds only with the right hash over the connection's own unused fresh nonce (or a token handed to an authenticated party), the database contents do not change and the authenticated session keeps working. A clean batch is evidence, not proof.", H6_NOTE, "deterministic simulation: generated protocol sessions on unauthorized connections against the real server", "6 (H6), 7 (C41)"),
+ "C43": ("exploration", "LIMITED claim: with a scheduling point before every statement of core/suobject.go and core/surecord.go and every lock operation, 2-4 threads perform single-call operations on one shared container (SuObject, SuRecord, row-backed SuRecord) incl. taking copy-on-write copies; oracles: no Go run-time error, the recorded history (incl. the final contents) is linearizable (porcupine) against the same code run single-threaded, and private copies stay private. This decides the crash / torn-result part of the property at sequentially consistent granularity; it cannot observe data races in the Go memory model sense (tasks are serialised by the simulator), which need the race detector on real parallel executions - outside this technique. Records are used without rules and observers; closures and classes are not covered.", "Trusted: Go toolchain and testing/synctest; instrumenter (statement yields) and simsync; porcupine v1.3.0; sequential SuObject semantics as the specification.", "deterministic simulation: statement-level interleaving of shared-object methods + porcupine linearizability check", "6 (H7), 7 (C43)"),
  "C34": ("exploration",
    "Seeded search over interleavings of the real server ticker, the real client expiry task, 1-4 goroutines sharing the client side batching and 0-3 direct server callers, with the simulated clock started at any millisecond, advanced by 1 ms - 30 s between calls and jumped by up to +-1 h. Oracles: all timestamps ever returned are pairwise distinct (as packed values) and each caller's sequence is strictly increasing under the language's comparison.",
    "Trusted: Go toolchain and testing/synctest (fake clock); simsync; one batching client per run, other clients modelled as direct server callers; the client reaches the server through a stub IDbms (the wire protocol is C40's subject).",
